@@ -178,6 +178,7 @@ func (p *Program) Explore(entry string, ex *Explorer) (err error) {
 	run := func() {
 		sched = newScheduler()
 		syncSt = newSyncState()
+		mfs = newMemFS()
 		defer func() {
 			leaked := sched.killAll()
 			_ = leaked
